@@ -60,6 +60,7 @@ import Mathlib.Algebra.Order.Field.Rat
 import Mathlib.Tactic.NormNum.Basic
 import Kodama.Lemmas.FieldInstances
 import Kodama.Lemmas.AverageExact
+import Kodama.Lemmas.WardExact
 import Kodama.Props.C03
 namespace Kodama
 open Crit Finset
@@ -197,7 +198,8 @@ theorem C02_ward_recurrence (L : FieldLaws K) (sAX sBX sAB wA wB wX : K) (na nb 
       = 2 * ((na : K) + nb) * nx / (((na : K) + nb) + nx) *
           ((sAX + sBX) / (((na : K) + nb) * nx) - (wA + wB + sAB) / ((na : K) + nb) ^ 2
             - wX / (nx : K) ^ 2) := by
-  simp only [Gen.ward, L.add, L.sub, L.mul, L.div, L.ofNat]
+  -- exact arithmetic: the guarded clamp of the repaired `method::ward` is a no-op
+  rw [L.ward_eq_formula _ _ _ na nb nx (by omega)]
   have h1 := cast_ne (K := K) ha
   have h2 := cast_ne (K := K) hb
   have h3 := cast_ne (K := K) hx
@@ -339,7 +341,7 @@ example : @Gen.median ℚ (fieldNum ℚ) 3 5 4 = 3 := by
 example : @Gen.centroid ℚ (fieldNum ℚ) 3 5 4 1 2 = 31 / 9 := by
   norm_num [Gen.centroid, fieldNumWith, Num.add, Num.sub, Num.mul, Num.div, Num.ofNat]
 example : @Gen.ward ℚ (fieldNum ℚ) 3 5 4 1 2 3 = 25 / 6 := by
-  norm_num [Gen.ward, fieldNumWith, Num.add, Num.sub, Num.mul, Num.div, Num.ofNat]
+  norm_num [Gen.ward, fieldNumWith, Num.add, Num.sub, Num.mul, Num.div, Num.ofNat, Num.lt]
 
 /-- Squared distances of the three points 0, 1, 3 on a line. -/
 private def dex : Nat → Nat → ℚ := fun i j =>
